@@ -51,11 +51,29 @@ def tok_visitor(child, toks, text, out, viable, stats, fails, extra):
     # count strings that are unbalanced (the ones the invariant speaks about)
     if bracket_problem(text) is not None:
         stats["unbalanced_run"] = stats.get("unbalanced_run", 0) + 1
+        if out[0] == "exc":
+            fails.append((f"not-ParseError:{out[1]}", {"text": text}, f"unbalanced input: {out[2]}"))
 
 
 def _split_tokens(text):
     """Token spellings of an accepted program via the lexer under test."""
     return corpus.lex_tokens(text)
+
+
+def _rejected(mt, what, sig, fails, text):
+    """The property says 'rejected with ParseError': acceptance and any other
+    exception are both violations.  True if properly rejected."""
+    o = core.parse_outcome(mt)
+    if o[0] == "ok":
+        fails.append((sig, {"text": mt, "origin": text}, what + " accepted"))
+    elif o[0] == "exc":
+        fails.append((f"not-ParseError:{o[1]}", {"text": mt, "origin": text}, f"{what}: {o[2]}"))
+    return o[0] == "perr"
+
+
+# line directives in front of an injection: the logical line number may lie far
+# beyond the physical lines of the text, the file name may change
+FAR = ["", '#line 99999 "far away.h"\n', "# 4000000000\n"]
 
 
 def _mut_work(items):
@@ -77,21 +95,18 @@ def _mut_work(items):
                     mt = " ".join(m) + " "
                     n += 1
                     nontriv += 1
-                    if core.parse_outcome(mt)[0] == "ok":
-                        fails.append((f"accepted-mutant:{kind[:4]}:{t}", {"text": mt, "origin": text}, "bracket mutant accepted"))
+                    _rejected(mt, "bracket mutant", f"accepted-mutant:{kind[:4]}:{t}", fails, text)
         # (d) non-token injections at every gap (the directive look-alikes only
         # in programs of at most 10 tokens: their effect does not depend on what
         # surrounds the line)
         junks = NONTOKENS if len(toks) <= 10 else NONTOKENS[:10]
         for i in range(len(toks) + 1):
             for junk in junks:
-                mt = " ".join(toks[:i] + [junk] + toks[i:]) + " "
-                n += 1
-                o = core.parse_outcome(mt)
-                if o[0] == "ok":
-                    fails.append((f"accepted-junk:{junk.strip()[:8]}", {"text": mt, "origin": text}, "non-token text accepted"))
-                elif o[0] == "perr":
-                    nontriv += 1
+                for far in (FAR if len(toks) <= 10 else FAR[:1]):
+                    mt = far + " ".join(toks[:i] + [junk] + toks[i:]) + " "
+                    n += 1
+                    if _rejected(mt, "non-token text", f"accepted-junk:{junk.strip()[:8]}", fails, text):
+                        nontriv += 1
     return n, nontriv, fails
 
 
@@ -118,10 +133,9 @@ def _dir_work(items):
                     line = head + " " + junk
                     mt = " ".join(toks[:g]) + "\n" + line + "\n" + " ".join(toks[g:]) + " "
                     n += 1
-                    if core.parse_outcome(mt)[0] == "ok":
-                        kind = "name" if '"' in head else "number"
-                        fails.append((f"accepted-junk-on-directive:after-{kind}:{junk[:2]}", {"text": mt, "origin": text},
-                                      "non-token text on a line directive accepted"))
+                    kind = "name" if '"' in head else "number"
+                    _rejected(mt, "non-token text on a line directive",
+                              f"accepted-junk-on-directive:after-{kind}:{junk[:2]}", fails, text)
     return n, fails
 
 
@@ -201,4 +215,4 @@ def replay(rep):
     print("input:", repr(c["text"]))
     print("outcome:", o[0], "" if o[0] == "ok" else o[1:])
     print("bracket problem:", bracket_problem(c["text"]))
-    return 1 if o[0] == "ok" else 0
+    return 1 if o[0] in ("ok", "exc") else 0
